@@ -131,6 +131,12 @@ def gen_plan(seed, tier):
       steps.append({"op": "move", "host": r.randrange(nhosts)})
     else:
       steps.append({"op": "reset", "sw": r.randint(1, nsw)})
+  r8 = Rng(mix(seed, "tos"))
+  for st in steps:
+    # the IP type-of-service byte of the hosts' datagrams: DSCP values and
+    # the two ECN bits (a flow installed for a frame has to match that frame)
+    if st["op"] == "frame" and st["l3"] == "udp" and r8.chance(0.3):
+      st["tos"] = r8.pick([0xb8, 0x02, 0x01, 0x03, 0xff, 0x28])
   return {"prop": PROP, "seed": seed, "cfg": cfg, "steps": steps}
 
 
@@ -172,7 +178,7 @@ def run_plan(plan):
   return res
 
 
-def _frame(src_mac, dst_mac, tag, l3, flow, ethertype=None):
+def _frame(src_mac, dst_mac, tag, l3, flow, ethertype=None, tos=0):
   body = struct.pack("!L", tag) + b"tagged-payload"
   if ethertype is not None:
     return F.eth(dst_mac, src_mac, ethertype, body + b"\0" * 30)
@@ -181,7 +187,7 @@ def _frame(src_mac, dst_mac, tag, l3, flow, ethertype=None):
     dip = F.ip(10, 0, 0, dst_mac[5] or 250)
     return F.eth(dst_mac, src_mac, F.ETH_IP,
                  F.ipv4(sip, dip, 17, F.udp(sip, dip, 1000 + flow, 2000,
-                                            body)))
+                                            body), tos=tos))
   if l3 == "arp":
     return F.eth(dst_mac, src_mac, F.ETH_ARP,
                  F.arp(1, src_mac, F.ip(10, 0, 0, src_mac[5]), b"\0" * 6,
@@ -444,7 +450,10 @@ def _drive(sim, plan, known, hit):
         # the group address the mcast frames go to, as a *source*
         srcmac = b"\x01\x00\x5e\x00\x00\x05"
         sim.probes["group_address_as_source"] += 1
-      raw = _frame(srcmac, dst, tag[0], st["l3"], st["flow"], et)
+      raw = _frame(srcmac, dst, tag[0], st["l3"], st["flow"], et,
+                   tos=st.get("tos", 0))
+      if st.get("tos", 0) & 3:
+        sim.probes["frame_with_ecn_bits"] += 1
       sw, port = hostpos[s]
       sim.ev("frame", tag[0], s, kind)
       net.host_send(sw, port, raw)
